@@ -145,6 +145,14 @@ def corpus(rng):
     yield ('lz4-claims-negative', HEADER + u32(1) + u32(3) + b'\0' * 8 + b'INST' + struct.pack('<III', 5, 0xffffffff, 0) + b'\x10aaaa' + END)
     yield ('zstd-claims-huge', HEADER + u32(1) + u32(3) + b'\0' * 8 + b'INST' + struct.pack('<III', len(refbin._compress('zstd', base_inst)), 0xfffffff0, 0) + refbin._compress('zstd', base_inst) + END)
     yield ('zstd-bomb', HEADER + u32(1) + u32(3) + b'\0' * 8 + chunk(b'XXXX', b'\0' * (4 << 20), 'zstd') + c(b'INST', base_inst) + c(b'PRNT', good_prnt) + END)
+    # two length fields that AGREE with each other and are both forged: the chunk header's uncompressed length and the
+    # content-size field of a hand-made Zstandard frame (single segment, 4- or 8-byte content size, one raw block of 5 bytes)
+    for label, forged in (('1gib', 1 << 30), ('3gib', 3 << 30), ('64mib', 1 << 26)):
+        for chunk_name in (b'INST', b'PROP', b'ZzZz'):
+            frame = b'\x28\xb5\x2f\xfd' + b'\xa0' + struct.pack('<I', forged) + struct.pack('<I', (5 << 3) | 1)[:3] + b'hello'
+            yield ('zstd-frame-and-header-agree-on-forged-size-' + label, HEADER + u32(1) + u32(3) + b'\0' * 8 + chunk_name + struct.pack('<III', len(frame), forged, 0) + frame + c(b'INST', base_inst) + c(b'PRNT', good_prnt) + END)
+    frame8 = b'\x28\xb5\x2f\xfd' + b'\xe0' + struct.pack('<Q', 0xfffffff0) + struct.pack('<I', (5 << 3) | 1)[:3] + b'hello'
+    yield ('zstd-frame-and-header-agree-on-forged-size-8byte', HEADER + u32(1) + u32(3) + b'\0' * 8 + b'INST' + struct.pack('<III', len(frame8), 0xfffffff0, 0) + frame8 + c(b'PRNT', good_prnt) + END)
     yield ('zstd-truncated-frame', HEADER + u32(1) + u32(3) + b'\0' * 8 + b'INST' + struct.pack('<III', 6, len(base_inst), 0) + refbin._compress('zstd', base_inst)[:6] + END)
     yield ('compressed-len-gt-file', HEADER + u32(1) + u32(3) + b'\0' * 8 + b'INST' + struct.pack('<III', 0x7fffffff, 10, 0) + b'abc')
     yield ('len-gt-file-uncompressed', HEADER + u32(1) + u32(3) + b'\0' * 8 + b'INST' + struct.pack('<III', 0, 0xffffffff, 0) + b'abc')
